@@ -34,6 +34,7 @@ import (
 	"oras.land/oras-go/v2/content/file"
 	"oras.land/oras-go/v2/content/memory"
 	"oras.land/oras-go/v2/content/oci"
+	"oras.land/oras-go/v2/registry/remote"
 	"verifharness/common"
 )
 
@@ -50,6 +51,7 @@ type Node struct {
 	Seed     uint64  `json:"s,omitempty"` // file content = stream(Seed)[:Len]
 	Len      int     `json:"l,omitempty"`
 	Target   string  `json:"g,omitempty"` // hex, symlink target
+	HardOf   string  `json:"h,omitempty"` // hex, name of the sibling file this file is a hard link of
 	Children []*Node `json:"c,omitempty"`
 }
 
@@ -217,6 +219,12 @@ func (g *genCtx) dir(depth int) *Node {
 		}
 		c.Name = hx(genName(r, used))
 		d.Children = append(d.Children, c)
+		if c.Kind == "f" && r.Chance(1, 12) { // a hard link to it: Add treats it as a regular file
+			h := *c
+			h.Name = hx(genName(r, used))
+			h.HardOf = c.Name
+			d.Children = append(d.Children, &h)
+		}
 	}
 	return d
 }
@@ -312,7 +320,7 @@ func genScenario(r *common.Rand, idx int) *Scenario {
 	sc.SkipUnpack = r.Chance(1, 8)
 	sc.ForceCAS = r.Chance(1, 5)
 	sc.IgnoreNoName = r.Chance(1, 6)
-	sc.Via = common.Pick(r, []string{"memory", "oci"})
+	sc.Via = common.Pick(r, []string{"memory", "oci", "memory", "oci", "remote"})
 	sc.Tamper = r.Chance(1, 3)
 	sc.ReproPair = r.Chance(1, 2)
 	big := idx%16 == 3
@@ -366,6 +374,15 @@ func retime(r *common.Rand, n *Node) {
 	for _, c := range n.Children {
 		retime(r, c)
 	}
+	for _, c := range n.Children { // a hard link shares the inode, hence the time, of its source
+		if c.HardOf != "" {
+			for _, o := range n.Children {
+				if o.Name == c.HardOf {
+					c.Mtime = o.Mtime
+				}
+			}
+		}
+	}
 }
 
 // ---------- materialising a tree ----------
@@ -408,6 +425,12 @@ func materialise(path string, n *Node, second bool) error {
 			return err
 		}
 		for _, c := range n.Children {
+			if c.Kind == "f" && c.HardOf != "" {
+				if err := os.Link(filepath.Join(path, unhx(c.HardOf)), filepath.Join(path, c.name())); err != nil {
+					return err
+				}
+				continue
+			}
 			if err := materialise(filepath.Join(path, c.name()), c, second); err != nil {
 				return err
 			}
@@ -852,6 +875,9 @@ func runScenario(sc *Scenario) {
 					break
 				}
 			}
+			if n.Kind == "f" && n.HardOf != "" {
+				run.Count("hard-link")
+			}
 			if n.Kind == "f" {
 				switch {
 				case n.Len == 0:
@@ -981,6 +1007,15 @@ func runScenario(sc *Scenario) {
 			panic(err)
 		}
 		mid = o
+	} else if sc.Via == "remote" {
+		reg := newFakeRegistry()
+		defer reg.close()
+		repo, err := remote.NewRepository(reg.host() + "/verif/c12")
+		if err != nil {
+			panic(err)
+		}
+		repo.PlainHTTP = true
+		mid = repo
 	} else {
 		mid = memory.New()
 	}
@@ -1293,7 +1328,7 @@ func main() {
 		}
 		return
 	}
-	n := run.Scale(140, 3000)
+	n := run.Scale(700, 14000)
 	for i := 0; i < n; i++ {
 		sc := genScenario(run.Rand.Fork(), i)
 		runScenario(sc)
